@@ -6,7 +6,7 @@ Special cases: entries in ALT are expected to be caught by another property's ch
 import json, os, subprocess, sys, glob, time
 V = os.path.dirname(os.path.dirname(os.path.abspath(__file__)))
 REPO = os.environ.get("VERIF_REPO", "/repo")
-ALT = {"C03-4": "C11", "C03-8": "C11", "C01-8": "C02", "C06-8": "C10", "C02-8": "C12", "C11-8": "C03"}            # caught by another check only
+ALT = {"C03-4": "C11", "C03-8": "C11", "C01-8": "C02", "C06-8": "C10", "C02-8": "C12", "C11-8": "C03", "C13-5": "C05"}            # caught by another check only
 NEUTRAL = {"C11-2", "C18-6"}      # no longer break the property after fixes 70def2b / ce03bfd
 def main():
     ids = sys.argv[1:] or sorted(os.path.basename(os.path.dirname(p)) for p in glob.glob(V + "/seeded/*/patch.diff"))
